@@ -219,10 +219,9 @@ Definition dependant_domain_overlaps (chs : list chdecl) (named : list Z) (o0 o1
    accepted where they differ), or a malformed request (class 2: inverted or zero range,
    unknown channel) *)
 Definition may_fail (chs : list chdecl) (named : list Z) (a b : Z) (o0 o1 : oobs) : bool :=
-  if fst (fst o1) =? 1 then
-    existsb (fun k => is_index chs k && dependant_domain_overlaps chs named o0 o1 a b k) named
-  else
-    (b <? a) || ((a =? 0) && (b =? 0)) || existsb (fun k => negb (memz k (keys_of chs))) named.
+  (b <? a) || ((a =? 0) && (b =? 0)) || existsb (fun k => negb (memz k (keys_of chs))) named ||
+  ((fst (fst o1) =? 1) &&
+   existsb (fun k => is_index chs k && dependant_domain_overlaps chs named o0 o1 a b k) named).
 
 Definition ok_delete (chs : list chdecl) (named : list Z) (a b : Z) (o0 o1 : oobs) : bool :=
   let failed := failed_of o1 in
